@@ -94,7 +94,8 @@ type scope struct {
 	id    int
 	kind  string // prop custom
 	t     *rapid.T
-	draws []DrawRec
+	draws []DrawRec // committed draws: what conditions and messages depend on (draws of skipped actions are rolled back)
+	all   []DrawRec // everything this scope received from Draw, in order
 	ctxs  []context.Context
 	subs  map[*GenSpec]*rapid.Generator[any]
 }
@@ -104,7 +105,8 @@ type Invocation struct {
 	Idx    int
 	Seq0   int64
 	TID    string
-	Draws  []DrawRec // draws of the property scope (incl. actions), in order
+	Draws  []DrawRec // committed draws of the property scope (incl. completed actions), in order
+	All    []DrawRec // every draw the property scope received, incl. those of skipped actions
 	Events []Event
 	scopes []*scope
 
@@ -339,6 +341,7 @@ func (x *Interp) execStmt(fr *frame, st *Stmt) {
 func (x *Interp) recordDraw(sc *scope, label string, v any, spec *GenSpec) {
 	d := DrawRec{Label: label, Text: fmt.Sprintf("%#v", v), Canon: Canon(v), M: Measure(v), Val: v, Spec: spec}
 	sc.draws = append(sc.draws, d)
+	sc.all = append(sc.all, d)
 }
 
 func (x *Interp) sampleCtxs(sc *scope, phase string) {
@@ -411,6 +414,10 @@ func harnessStack() string {
 	var b strings.Builder
 	for {
 		f, more := frames.Next()
+		if strings.HasPrefix(f.Function, "vh.RunCheck") || strings.HasPrefix(f.Function, "vh.RunFuzz") || strings.HasPrefix(f.Function, "vh.Hosted") ||
+			strings.HasPrefix(f.Function, "vh.serveHost") || strings.HasPrefix(f.Function, "testing.") || strings.HasPrefix(f.Function, "vh.hosted") {
+			break
+		}
 		if strings.HasPrefix(f.Function, "vh.") {
 			fn := strings.TrimPrefix(f.Function, "vh.")
 			fmt.Fprintf(&b, "%s:%d;", fn, f.Line)
@@ -528,9 +535,20 @@ func (x *Interp) runAction(fr *frame, a *Action, at *rapid.T) {
 	}
 	x.ev(Event{K: "astart", Name: a.Name, Normal: at == fr.sc.t})
 	// the library draws the action name from the property's T: it is part of what the invocation received
-	fr.sc.draws = append(fr.sc.draws, DrawRec{Label: "action", Text: fmt.Sprintf("%#v", a.Name), Canon: fmt.Sprintf("%q", a.Name), M: int64(len(a.Name)), Val: a.Name})
+	committed := len(fr.sc.draws)
+	pseudo := DrawRec{Label: "action", Text: fmt.Sprintf("%#v", a.Name), Canon: fmt.Sprintf("%q", a.Name), M: int64(len(a.Name)), Val: a.Name}
+	fr.sc.draws = append(fr.sc.draws, pseudo)
+	fr.sc.all = append(fr.sc.all, pseudo)
 	normal := false
-	defer func() { x.ev(Event{K: "aend", Name: a.Name, Normal: normal}) }()
+	all0 := len(fr.sc.all)
+	defer func() {
+		x.ev(Event{K: "aend", Name: a.Name, Normal: normal, ID: len(fr.sc.all) - all0})
+		if !normal {
+			// a skipped action is "not applicable": nothing it drew may influence what the program does later,
+			// otherwise the program would not be a function of the draws that survive pruning
+			fr.sc.draws = fr.sc.draws[:committed]
+		}
+	}()
 	x.exec(&frame{sc: fr.sc, where: "action"}, a.Body)
 	normal = true
 }
@@ -548,6 +566,7 @@ func (x *Interp) runInv(fr *frame, st *Stmt, at *rapid.T) {
 func (inv *Invocation) finalize() {
 	inv.Done = true
 	inv.Draws = inv.scopes[0].draws
+	inv.All = inv.scopes[0].all
 	type flight struct {
 		kind string // "" none, skip, fatal, panic
 		ev   *Event
@@ -579,11 +598,14 @@ func (inv *Invocation) finalize() {
 			if e.Normal {
 				inv.Actions++
 				trailingSkips = 0
-			} else {
+			} else if p.kind == "skip" || p.kind == "" {
+				// skipped by the action itself, or the library rejected one of its draws: swallowed by Repeat
 				inv.ASkips++
-				if p.kind == "skip" {
-					p = flight{}
-					trailingSkips++
+				p = flight{}
+				if e.ID == 0 {
+					trailingSkips++ // nothing drawn: "skipped", retried without counting as a step
+				} else {
+					trailingSkips = 0
 				}
 			}
 		case "bleave":
